@@ -222,6 +222,101 @@ def site_key(name, kind, ordinal):
     return f"{F.strip_generics(name) if not name.startswith('<') else name}|{kind}#{ordinal}"
 
 
+def verify_seen_cut(fx, cg, comp):
+    """A recursion whose cycles are cut by a set of already-seen items: `if seen.contains(&x) [&& pred(x)] { return .. }`
+    followed by `seen.insert(x)`. Every recursive call must sit in a match arm on x whose variants pred() accepts."""
+    from ..vmmodel import _diverges, kind_filter
+
+    for name in sorted(comp):
+        b = fx.body(name)
+        if not b or not b.get("hir"):
+            continue
+        root = b["hir"]["value"]
+        guard = None
+        for n, ps in F.exprs(root, "If"):
+            if "else" in n or not _diverges(n["then"]):
+                continue
+            conj = []
+            stack = [n["cond"]]
+            while stack:
+                c = stack.pop()
+                while c.get("k") in ("DropTemps", "Use"):
+                    c = c["e"]
+                if c.get("k") == "Binary" and c.get("op") == "And":
+                    stack += [c["l"], c["r"]]
+                else:
+                    conj.append(c)
+            cont = [c for c in conj if c.get("k") == "MethodCall" and "HashSet" in (F.callee(c) or "") and c.get("method") == "contains"]
+            if len(cont) == 1:
+                guard = (n, cont[0], [c for c in conj if c is not cont[0]])
+                break
+        if guard is None:
+            continue
+        n, cont, rest = guard
+        x = F.local_of(F.strip(cont["args"][0]))
+        seen = F.local_of(F.strip(cont["recv"]))
+        inserted = any(
+            c.get("k") == "MethodCall" and c.get("method") == "insert" and F.local_of(F.strip(c["recv"])) == seen and F.local_of(F.strip(c["args"][0])) == x
+            for c, _ in F.walk(root)
+        )
+        if x is None or not inserted:
+            return False, "the item tested with contains() is not the item inserted into the seen set", {"function": name}
+        # the enum of x: from the match on x in this function
+        adt = None
+        for m, _ in F.exprs(root, "Match"):
+            if F.local_of(F.strip(m["scrut"])) == x:
+                for a in m["arms"]:
+                    pv = F.pat_variants(a["pat"])
+                    if pv:
+                        adt = sorted(pv)[0][0]
+                        break
+            if adt:
+                break
+        if adt is None or fx.adt(adt) is None:
+            return False, "cannot find the match on the guarded item", {"function": name}
+        allv = [v["name"] for v in fx.adt(adt)["variants"]]
+        accepted = set(allv)
+        for c in rest:
+            f = kind_filter(c, allv, fx, 0, adt)
+            if f is None:
+                return False, "unrecognised extra condition in the seen-set guard", {"function": name}
+            accepted &= f
+        # recursive calls and the variants they sit under
+        rec_variants = set()
+        n_calls = 0
+        for c, cps in F.calls(root):
+            if not (set(cg.resolve_local(c)) & set(comp)):
+                continue
+            n_calls += 1
+            under = None
+            for i, (anc, key) in enumerate(cps):
+                if "pat" in anc and "body" in anc and key == "body" and i > 0 and cps[i - 1][0].get("k") == "Match":
+                    m = cps[i - 1][0]
+                    if F.local_of(F.strip(m["scrut"])) != x:
+                        continue
+                    pv = F.pat_variants(anc["pat"])
+                    if pv and all(a == adt for a, _ in pv):
+                        under = {v for _, v in pv}
+                    else:
+                        covered = set()
+                        for a in m["arms"]:
+                            if a is anc:
+                                break
+                            v = F.pat_variants(a["pat"])
+                            if v and "guard" not in a:
+                                covered |= {y for _, y in v}
+                        under = set(allv) - covered
+            rec_variants |= set(allv) if under is None else under
+        missing = sorted(rec_variants - accepted)
+        smp = {"function": name, "guarded_enum": adt, "guard_accepts": sorted(accepted), "recursive_variants": sorted(rec_variants), "recursive_calls": n_calls}
+        if n_calls == 0:
+            return False, "no recursive call found under the guarded match", smp
+        if missing:
+            return False, f"variant(s) {missing} recurse but are not cut by the guard", smp
+        return True, "", smp
+    return False, "no `seen.contains(..)` guard with an early return found in the cycle", {}
+
+
 def check(fx, rep, tier):
     cg = F.CallGraph(fx)
     entries, bodies = reachable_bodies(fx, cg)
@@ -548,6 +643,16 @@ def check(fx, rep, tier):
             if not dependency_holds(fx, "C16"):
                 rep.oblige(False, "R01.3", f"recursion:{key}", F.loc(fx.body(sorted(comp)[0])["span"]), "the delegate recursion of merge is bounded only while C16's mirror rules hold, and they report a violation (possible delegate cycle)")
                 continue
+        if row is not None and row[1] == "seen-set":
+            ok, why, smp = verify_seen_cut(fx, cg, comp)
+            rep.oblige(
+                ok,
+                "R01.3",
+                f"recursion-cut:{key}",
+                F.loc(fx.body(sorted(comp)[0])["span"]),
+                f"the recursion of {members[0]} is cut only by its seen-set guard, and that guard does not cover every recursive case: {why} — a self-referential input recurses until the native stack overflows",
+                sample=dict(smp, rule="R01.3", cycle=members[:2]),
+            )
         rep.oblige(
             row is not None,
             "R01.3",
